@@ -11,13 +11,13 @@ CONSTANTS
   SeekMax = 3
   Ops = TRUE
   Hints = {1, 2}
-  IterSingleLine = TRUE
+  IterSingleLine = FALSE
   Emit = FALSE
   Modes = {"shared"}
   ClampReadline = TRUE
   PadOdd = TRUE
   SeekFirst = TRUE
-  IterYieldsAll = FALSE
+  IterYieldsAll = TRUE
 SPECIFICATION Spec
 INVARIANT TypeOK
 INVARIANT IndexExact
